@@ -89,6 +89,14 @@ def load_repo():
     sys.path.insert(0, repo)
     for k in [k for k in sys.modules if k == "svgelements" or k.startswith("svgelements.")]:
         del sys.modules[k]
+    # numpy / scipy / PIL are not installed in /venv.  The library retries `import numpy` on every point
+    # evaluation; a failing import is not cached by Python and costs ~150us of sys.path scanning each time.
+    # A None entry in sys.modules makes the same ImportError immediate - behaviour is unchanged.
+    import importlib.util
+    for name in ("numpy", "scipy", "PIL"):
+        if importlib.util.find_spec(name) is None:
+            for sub in (name, name + ".special", name + ".integrate", name + ".Image"):
+                sys.modules[sub] = None
     import svgelements  # noqa
     src = os.path.abspath(svgelements.__file__)
     if not src.startswith(repo + os.sep):
@@ -316,8 +324,11 @@ def run_property(prop, tier, seed, replay=None, jobs=None, only=None):
                 if match_finding(findings, matchers, d) is not None:
                     continue
                 t = d["tags"]
-                key = (sub.name, t.get("kind"), t.get("cmd"), t.get("prev_kind"),
-                       re.sub(r"[-+]?[0-9]*\.?[0-9]+(?:[eE][-+]?[0-9]+)?", "#", str((t.get("problems") or [d["message"]])[0]))[:150])
+                msg = str((t.get("problems") or [""])[0]) if t.get("problems") else ("" if t.get("kind") else d["message"])
+                key = (sub.name,) + tuple("%s=%s" % (k, t.get(k)) for k in (
+                    "kind", "cmd", "prev_kind", "exc", "op", "field", "segkind", "first_kind", "status", "entry",
+                    "fault", "family", "getter", "setter") if t.get(k) is not None) + (
+                    re.sub(r"[-+]?[0-9]*\.?[0-9]+(?:[eE][-+]?[0-9]+)?", "#", msg)[:150],)
                 grp[key] += 1
                 ex.setdefault(key, d["case"])
         for k, v in sorted(grp.items(), key=lambda kv: -kv[1]):
